@@ -108,12 +108,23 @@ CLAIMED["C15"] = {
     "design_ref": "DESIGN.md §5 C15",
 }
 
+CLAIMED["C10"] = {
+    "text": "Value preservation is proved for all expressions and all real assignments (Verus, structural induction through the function's own contract): whenever the original is defined, Exp::flatten (every arm: both distributions, "
+            "negation pulling, division distribution, structural recursion) and the arithmetic arms of Exp::simplify (Add, Sub, Mul, Div, unary minus, Abs: constant folding, 0/1 identities, the zero-product rule, no folding through a zero divisor) "
+            "return an expression that is defined and has the same value; finite constants stay finite. The guard of the zero-product rule is proved to be exactly 'contains a division by zero or by a non-constant' (syntactic form). "
+            "Idempotence and 'no unsafe division is rewritten away' for simplify as a whole are checked only by a BOUNDED search on the real code (labelled). "
+            "NOT decided: the logic / min / max arms of simplify (assumed arms), termination, and the constant-spelling sentence of the property (bound inference before simplification).",
+    "note": "Trusted: prelude/f64_layer.rs (floats as exact reals: a rewrite that is exact over the reals may still change a rounded result). Assumed arms are listed in the evidence.",
+    "technique": "Verus contracts sem(r, env) == sem(self, env) woven into extracted Exp::flatten / Exp::simplify; executable-postcondition search for counterexamples and bounded clauses",
+    "design_ref": "DESIGN.md §5 C10",
+}
+
 NOT_APPLICABLE = {
     "C03": "quantifies over source texts through the pest-generated parser and an external MILP search; every in-repo step that can carry a contract is covered by C01/C02/C04/C05; no further function exists to attach an obligation to",
     "C06": "relates two parses; the expansion engine works on parser IL with dyn Fn callbacks, scope frames and evaluated iterables that Verus does not accept and Kani cannot execute; its specification would be a formal semantics of the whole language",
     "C09": "the operator table is data handed to pest's PrattParser and tokens come from macro-generated grammar code; neither verifier can take that code, and assuming the library implements precedence climbing would assume the property",
     "C17": "the export is text read by an independent reader; a contract would need a formal LP-format reader and a string theory for format!/push_str output; Kani cannot execute float formatting",
     "C20": "sensitivities are computed inside clarabel/good_lp; rooc only forwards them by name, so no contract on repository code decides the sign convention",
-    "C08": PENDING, "C10": PENDING, "C11": PENDING, "C12": PENDING,
+    "C08": PENDING, "C11": PENDING, "C12": PENDING,
      "C16": PENDING, 
 }
